@@ -43,4 +43,29 @@ theorem gen_provider_tracer_remember_iff (hasDelegate noMap known : Bool) :
     "remember" ∈ (Otel.Gen.C16.providerTracer hasDelegate noMap known).2 ↔ (hasDelegate = false ∧ known = false) := by
   rw [gen_provider_tracer_table]; cases hasDelegate <;> cases noMap <;> cases known <;> decide
 
+/-! ### internal/global/meter.go: delegating a callback registration -/
+
+/-- `registration.setDelegate` (after the F50 repair): nothing is registered once `Unregister` ran; otherwise the
+callback is registered with the delegate through the unwrapping adapters, an error is reported, and the returned
+registration is KEPT whenever it is non-nil — error or not — so that `Unregister` can still remove the callback;
+all under `unregMu` -/
+theorem gen_registration_set_delegate_table (unregistered registerErr noReg : Bool) :
+    Otel.Gen.C16.registrationSetDelegate unregistered registerErr noReg =
+      (if unregistered then ("return", ["lock", "deferUnlock"])
+       else if registerErr && noReg then ("return", ["lock", "deferUnlock", "register(unwrapped)", "handleErr"])
+       else ("<end>", ["lock", "deferUnlock", "register(unwrapped)"] ++ (if registerErr then ["handleErr"] else []) ++
+                      ["keepRegistration"])) := by
+  cases unregistered <;> cases registerErr <;> cases noReg <;> rfl
+
+/-- a live registration returned by the delegate is never dropped -/
+theorem gen_registration_kept_iff (unregistered registerErr noReg : Bool) :
+    "keepRegistration" ∈ (Otel.Gen.C16.registrationSetDelegate unregistered registerErr noReg).2 ↔
+      (unregistered = false ∧ ¬ (registerErr = true ∧ noReg = true)) := by
+  rw [gen_registration_set_delegate_table]
+  cases unregistered <;> cases registerErr <;> cases noReg <;> decide
+
+/-- `unwrapCallback`: every invocation of the wrapped callback gets a FRESH `unwrapObs` around the observer it was
+called with (no observer is shared between invocations or callbacks) -/
+theorem gen_unwrap_callback_fresh_observer : Otel.Gen.C16.unwrapCallbackBody = "f(ctx,&unwrapObs{obs:obs})" := by decide
+
 end Otel.C16.GenTie
